@@ -67,6 +67,8 @@ theorem toString_int_nonneg (v : Int) (h : 0 ≤ v) : toString v = toString v.to
   obtain ⟨n, rfl⟩ := Int.eq_ofNat_of_zero_le h
   simp [toString, Int.repr]
 
+@[simp] theorem fnNameTok_nil (d : Bool) (n : String) : fnNameTok d [] n = n := by cases d <;> simp [fnNameTok, String.intercalate, String.join]
+
 theorem escapeKeyTok_simple (k : String) (h : simpleKey k = true) : escapeKeyTok k = k := by simp [escapeKeyTok, h]
 
 section Y
